@@ -154,6 +154,24 @@ func vfSha1(b []byte) []byte {
 func vfBackend(w http.ResponseWriter, r *http.Request) {
 	body, _ := io.ReadAll(r.Body)
 	p := r.URL.Path
+	// per-attempt script: the first request carrying a given X-Vf-Once id is answered normally,
+	// every later one with the same id (a retried attempt) gets no response at all: the connection
+	// is closed without a byte
+	if id := r.Header.Get("X-Vf-Once"); id != "" {
+		vfOnceMu.Lock()
+		n := vfOnceSeen[id]
+		vfOnceSeen[id] = n + 1
+		vfOnceMu.Unlock()
+		if n > 0 {
+			if hj, ok := w.(http.Hijacker); ok {
+				if c, _, err := hj.Hijack(); err == nil {
+					c.Close()
+					return
+				}
+			}
+			panic(http.ErrAbortHandler)
+		}
+	}
 	if i := strings.Index(p, "/status/"); i >= 0 {
 		code := 0
 		fmt.Sscanf(p[i+len("/status/"):], "%d", &code)
@@ -183,6 +201,23 @@ func vfBackend(w http.ResponseWriter, r *http.Request) {
 		w.Header().Set("X-Backend", "vf")
 		io.WriteString(w, "hello from backend")
 	}
+}
+
+var (
+	vfOnceMu   sync.Mutex
+	vfOnceSeen = map[string]int{}
+	vfOnceN    int
+)
+
+// vfOnceID returns a fresh id for the X-Vf-Once script of the backend.
+func vfOnceID() string {
+	vfOnceMu.Lock()
+	defer vfOnceMu.Unlock()
+	vfOnceN++
+	if len(vfOnceSeen) > 4096 {
+		vfOnceSeen = map[string]int{} // ids of finished requests
+	}
+	return fmt.Sprintf("once-%d", vfOnceN)
 }
 
 func vfGzip(b []byte) []byte {
